@@ -12,6 +12,7 @@ func init() {
 	commands["storage-random"] = cmdStorageRandom
 	commands["array-run"] = cmdArrayRun
 	commands["map-run"] = cmdMapRun
+	commands["multirun"] = cmdMultiRun
 }
 
 func main() {
